@@ -12,7 +12,7 @@ compared with anything; a bug in it merely makes the "valid" stream less valid.
 import sys
 sys.path.insert(0, '/verif/lib')
 
-OPS = {'ser': 1, 'de': 2, 'rt': 3, 'ser_ref': 4, 'ser_slice': 5}
+OPS = {'ser': 1, 'de': 2, 'rt': 3, 'ser_ref': 4, 'ser_slice': 5, 'check': 6, 'batch_check': 7}
 
 # ---------------------------------------------------------------- descriptors
 def U(w): return ('u', w)
@@ -35,6 +35,7 @@ def CU(t): return WRAP(1, 0, t)
 def UC(t): return WRAP(0, 1, t)
 def UU(t): return WRAP(0, 0, t)
 def STRUCT(*fields): return ('struct', TUP(*fields))
+def LEAF(w, k): return ('leaf', w, k)       # w-byte unsigned leaf, valid iff k = 0: even, k = 1: < 200
 
 NAMED = STRUCT(U(8), TUP(U(8), TUP(U(2), BOOL)), SEQ(U(1)), OPT(EVEN))
 TUPS = STRUCT(U(1), TUP(BOOL, TUP(MODAL, U(2))), STR)
@@ -42,6 +43,13 @@ MARKER = STRUCT(UNIT)
 SMALL = STRUCT(EVEN, TUP(U(1)))
 NEST = STRUCT(NAMED, TUPS, SEQ(SMALL), MARKER)
 def GEN(t): return STRUCT(t, TUP(BOOL, t))
+# validity-bearing leaves (hand-written Valid impls in the harness) and derived structs over them
+E32, LT = LEAF(4, 0), LEAF(1, 1)
+VN = STRUCT(E32, U(2), LT)                                  # named fields
+VT = STRUCT(LT, E32)                                        # tuple struct
+VNT = STRUCT(U(1), TUP(E32, TUP(LT, BOOL)), EVEN)           # nested-tuple field
+OUTER = STRUCT(U(1), SEQ(VT))
+VB = STRUCT(BOOL, OPT(U(2)), SEQ(OPT(BOOL)))
 
 ZOO = {
     0: U(1), 1: U(2), 2: U(4), 3: U(8), 4: S(1), 5: S(2), 6: S(4), 7: S(8), 8: U(8), 9: S(8), 10: BOOL,
@@ -65,8 +73,19 @@ ZOO = {
     67: NAMED, 68: TUPS, 69: MARKER, 70: NEST, 71: SEQ(SMALL), 72: GEN(MODAL),
     73: SET(OPT(U(2))), 74: SEQ(EVEN), 75: UC(SEQ(GEN(MODAL))),
     76: SET(EVEN), 77: TUP(SEQ(U(1)), SEQ(U(1))),
+    78: E32, 79: LT, 80: VN, 81: VT, 82: VNT, 83: GEN(E32), 84: GEN(VT),
+    85: SEQ(VT), 86: SEQ(SEQ(VT)), 87: SEQ(OPT(VT)), 88: ARR(2, SEQ(VT)), 89: OPT(SEQ(VN)),
+    90: MAP(U(1), VT), 91: SEQ(VN), 92: SEQ(VNT), 93: TUP(VT, SEQ(VT)),
+    94: OUTER, 95: SEQ(OUTER), 96: VT, 97: VN, 98: SEQ(VN),
+    99: SET(VT), 100: SEQ(SEQ(VN)), 101: SEQ(OPT(VT)), 102: MAP(U(1), SEQ(VT)),
+    103: SEQ(SET(VT)), 104: SEQ(TUP(VT, OPT(VN))), 105: SEQ(GEN(SEQ(VT))), 106: SEQ(ARR(2, VT)),
+    107: SEQ(SEQ(LT)), 108: SEQ(OPT(E32)), 109: SEQ(VT),
+    110: CC(SEQ(SEQ(VT))), 111: SEQ(CU(VT)), 112: SEQ(SEQ(SEQ(VNT))), 113: MAP(VT, OPT(VN)),
+    114: VB, 115: SEQ(VB), 116: ARR(3, OPT(BOOL)), 117: SEQ(OPT(U(1))), 118: SEQ(BOOL), 119: SEQ(OPT(U(2))),
+    120: ARR(2, VT), 121: OPT(VT), 122: SEQ(ARR(2, SEQ(VN))), 123: UU(SEQ(SEQ(VT))), 124: SEQ(SEQ(VT)),
 }
-VEC_IDS = [25, 26, 27, 30, 31, 32, 33, 44, 46, 53, 59, 60, 66, 71]      # Rust type is literally Vec<_>
+LIGHT = set(range(78, 125))     # ids added for the validation streams: reduced share of the generic streams
+VEC_IDS = [25, 26, 27, 30, 31, 32, 33, 44, 46, 53, 59, 60, 66, 71, 85, 86, 87, 95, 98, 104, 107, 108, 115, 119]      # Rust type is literally Vec<_>
 
 
 def desc(t):
@@ -87,7 +106,17 @@ def desc(t):
     if k == 'big': return [13]
     if k == 'wrap': return [14, t[1], t[2]] + desc(t[3])
     if k == 'struct': return [15] + desc(t[1])
+    if k == 'leaf': return [16, t[1], t[2]]
     raise ValueError(t)
+
+
+def subtypes(t):
+    return [s for s in t[1:] if isinstance(s, tuple)]
+
+
+def has_vleaf(t):
+    """the type has values that are not valid"""
+    return t[0] in ('even', 'leaf') or any(has_vleaf(s) for s in subtypes(t))
 
 
 def zst(t):
@@ -150,7 +179,7 @@ def rand_int(rng, lo, hi, mode):
 def key(t, v):
     """sort key consistent with Rust's Ord"""
     k = t[0]
-    if k in ('u', 's', 'bool', 'even', 'modal', 'big'): return v
+    if k in ('u', 's', 'bool', 'even', 'modal', 'big', 'leaf'): return v
     if k == 'unit': return 0
     if k == 'opt': return (0,) if v[0] == 'none' else (1, key(t[1], v[1]))
     if k == 'pair': return (key(t[1], v[0]), key(t[2], v[1]))
@@ -180,6 +209,10 @@ def rand_val(rng, t, mode='rand', depth=0, odd_even=False):
         v = rand_int(rng, 0, 255, mode)
         return (v | 1) if (odd_even and rng.randrange(3) == 0) else (v & ~1)
     if k == 'modal': return rand_int(rng, 0, 65535, mode)
+    if k == 'leaf':
+        if odd_even and rng.randrange(3) == 0: return bad_leaf(rng, t)
+        v = rand_int(rng, 0, (1 << (8 * t[1])) - 1, mode)
+        return (v & ~1) if t[2] == 0 else (v if v < 200 else rng.choice([199, 0, v - 100]))
     if k == 'big':
         if mode == 'min': return 0
         r = rng.randrange(6)
@@ -213,9 +246,81 @@ def rand_val(rng, t, mode='rand', depth=0, odd_even=False):
     raise ValueError(t)
 
 
+def bad_leaf(rng, t):
+    """a value of a validity-bearing leaf type that fails Valid::check"""
+    if t[0] == 'even': return rng.choice([1, 255, rng.randrange(256) | 1])
+    hi = (1 << (8 * t[1])) - 1
+    if t[2] == 0: return rng.choice([1, hi, rng.randrange(hi + 1) | 1])
+    return rng.choice([200, 255, rng.randrange(200, 256)])
+
+
+def map_leaves(t, v, f, d=0, ctr=None):
+    """rebuild v with f(leaf type, leaf value, index, container depth) applied to every validity-bearing leaf, in
+    encoding order"""
+    if ctr is None: ctr = [0]
+    k = t[0]
+    rec = lambda s, x, dd: map_leaves(s, x, f, dd, ctr)
+    if k in ('even', 'leaf'):
+        i = ctr[0]; ctr[0] += 1
+        return f(t, v, i, d)
+    if k == 'opt': return v if v[0] == 'none' else ('some', rec(t[1], v[1], d + 1))
+    if k == 'pair':
+        a = rec(t[1], v[0], d)
+        return (a, rec(t[2], v[1], d))
+    if k in ('arr', 'seq', 'set'): return [rec(t[-1], x, d + 1) for x in v]
+    if k == 'map':
+        out = []
+        for a, b in v:
+            a2 = rec(t[1], a, d + 1)
+            out.append((a2, rec(t[2], b, d + 1)))
+        return out
+    if k == 'wrap': return rec(t[3], v, d)
+    if k == 'struct': return rec(t[1], v, d)
+    return v
+
+
+def leaf_depths(t, v):
+    ds = []
+    map_leaves(t, v, lambda lt, lv, i, d: (ds.append(d), lv)[1])
+    return ds
+
+
+def invalidate(rng, t, v, target):
+    return map_leaves(t, v, lambda lt, lv, i, d: bad_leaf(rng, lt) if i == target else lv)
+
+
+def has_dups(t, v):
+    """a set / map inside v has two equal keys (not a value of the Rust type: value-side ops skip it)"""
+    k = t[0]
+    if k in ('set', 'map'):
+        ks = [repr(key(t[1], x if k == 'set' else x[0])) for x in v]
+        if len(set(ks)) != len(ks): return True
+        if k == 'set': return any(has_dups(t[1], x) for x in v)
+        return any(has_dups(t[1], a) or has_dups(t[2], b) for a, b in v)
+    if k == 'opt': return v[0] == 'some' and has_dups(t[1], v[1])
+    if k == 'pair': return has_dups(t[1], v[0]) or has_dups(t[2], v[1])
+    if k in ('arr', 'seq'): return any(has_dups(t[-1], x) for x in v)
+    if k == 'wrap': return has_dups(t[3], v)
+    if k == 'struct': return has_dups(t[1], v)
+    return False
+
+
+def canon(t, v):
+    """sets / maps inside v listed in key order (value-side ops take values of the Rust type)"""
+    k = t[0]
+    if k == 'set': return sorted((canon(t[1], x) for x in v), key=lambda x: key(t[1], x))
+    if k == 'map': return sorted(((canon(t[1], a), canon(t[2], b)) for a, b in v), key=lambda e: key(t[1], e[0]))
+    if k == 'opt': return v if v[0] == 'none' else ('some', canon(t[1], v[1]))
+    if k == 'pair': return (canon(t[1], v[0]), canon(t[2], v[1]))
+    if k in ('arr', 'seq'): return [canon(t[-1], x) for x in v]
+    if k == 'wrap': return canon(t[3], v)
+    if k == 'struct': return canon(t[1], v)
+    return v
+
+
 def flat(t, v):
     k = t[0]
-    if k in ('u', 's', 'bool', 'even', 'modal', 'big'): return [v]
+    if k in ('u', 's', 'bool', 'even', 'modal', 'big', 'leaf'): return [v]
     if k == 'unit': return []
     if k == 'opt': return [0] if v[0] == 'none' else [1] + flat(t[1], v[1])
     if k == 'pair': return flat(t[1], v[0]) + flat(t[2], v[1])
@@ -239,6 +344,7 @@ def encode(t, v, c, out, marks):
     elif k == 'bool': marks.append((len(out), 'bool', v)); out.append(v)
     elif k == 'unit': pass
     elif k == 'even': out.append(v)
+    elif k == 'leaf': out += le(v, t[1])
     elif k == 'modal': out += le(v, 2 if c else 4)
     elif k == 'opt':
         marks.append((len(out), 'tag', 0 if v[0] == 'none' else 1))
@@ -367,6 +473,10 @@ def gen(rng, tier):
     # branch: impl_tuple! 1..5 -> ids 15-19;  BTreeMap / BTreeSet collect -> ids 36-42, 50, 73, 76 (de/map_*)
     # branch: impl_canonical! Compress::Yes / Compress::No arms x Validate pin -> ids 55-62, 75
     # branch: derive named / tuple / nested tuple / generic / zero-sized -> ids 67-72, 75
+    # branch: derive-generated Valid::check / batch_check (collect + one batch_check per flattened field) driven by
+    #         slice iterators (Vec<S>) and by flat_map / filter / flatten / map iterators (Vec<Vec<S>>, Vec<Option<S>>,
+    #         [Vec<S>; N], BTreeMap values, Arc / Cow / wrappers) -> ids 78-113, 120-124 (gen_validation)
+    # branch: bool byte / option tag check reached with Validate::No from inside sequences -> ids 114-119 (gen_tags)
     """
     scale = 1 if tier == 'quick' else 12
     ids = sorted(ZOO)
@@ -378,13 +488,20 @@ def gen(rng, tier):
         for i in ids:
             t = ZOO[i]
             zs = has_zst_seq(t)
-            for mode in (['min', 'max', 'rand', 'rand', 'big'] if rep == 0 else ['rand', 'rand', 'max']):
+            light = i in LIGHT
+            if light and rep % 3:
+                continue
+            modes = ['min', 'max', 'rand', 'rand', 'big'] if rep == 0 else ['rand', 'rand', 'max']
+            if light:
+                modes = ['min', 'max', 'rand'] if rep == 0 else ['rand', 'max']
+            for mode in modes:
                 # ---- value-side ops: every impl's serialize_with_mode / serialized_size, both modes
                 x = rand_val(rng, t, mode, odd_even=True)
                 fx = flat(t, x)
                 d = desc(t)
                 yield 'ser', [[i], d, fx], 'ser/' + mode
                 yield 'rt', [[i], d, fx], 'rt/' + mode
+                yield 'check', [[i], d, fx], 'check/' + mode                  # Valid::check of every impl
                 if mode != 'big' or rng.randrange(3) == 0:
                     yield 'ser_ref', [[i], d, fx], 'ser_ref/' + mode      # &T, &mut T, Rc<T> impls
                     if i in VEC_IDS:
@@ -404,12 +521,15 @@ def gen(rng, tier):
                     cuts = range(len(bs)) if not big else sorted(
                         set(rng.randrange(len(bs)) for _ in range(24)) | {0, 1, 7, 8, 9, len(bs) - 1}
                         | {m[0] + o for m in marks[:6] for o in (-1, 0, 1, 7, 8, 9) if 0 <= m[0] + o < len(bs)})
+                    if light and len(bs) > 14:
+                        cuts = sorted(set(rng.randrange(len(bs)) for _ in range(10)) | {0, 7, 8, len(bs) - 1})
                     for n in cuts:
                         yield de(i, bs[:n], c, rng.randrange(2), 'de/trunc')
                     if mode == 'big' and rng.randrange(2):
                         continue
                     # branch: single-byte corruption of bool bytes, option tags, every length-prefix byte
-                    ms = marks if len(marks) <= 10 else rng.sample(marks, 10)
+                    nm = 3 if (light or mode == 'big') else 10     # 'big': the model's fuel computation is quadratic there
+                    ms = marks if len(marks) <= nm else rng.sample(marks, nm)
                     for (off, kind, val) in ms:
                         if kind in ('bool', 'tag'):
                             for nb in {0, 1, 2, 3, 0x80, 0xff, val ^ 1, rng.randrange(256)}:
@@ -437,7 +557,7 @@ def gen(rng, tier):
                                     b3 = b2 + [rng.randrange(256) for _ in range(rng.choice([1, 8, 64, 300]))]
                                     yield de(i, b3, c, rng.randrange(2), 'de/prefix_huge+trailing')
                     # mutated valid encodings: random bytes at random places
-                    for _ in range(4):
+                    for _ in range(2 if light else 4):
                         if not bs:
                             break
                         b2 = list(bs)
@@ -477,6 +597,85 @@ def gen(rng, tier):
                 if zs and n >= 8:
                     bs[1:8] = [0] * 7                                    # DEFECT-1: keep Vec<()> prefixes small
                 yield de(i, bs, rng.randrange(2), rng.randrange(2), 'de/random')
+    yield from gen_validation(rng, tier)
+    yield from gen_tags(rng, tier)
+
+
+def gen_validation(rng, tier):
+    """Validate::Yes must reject, Validate::No must accept, an encoding in which exactly one leaf fails Valid::check
+    (first / middle / last / deepest leaf), for every type with validity-bearing leaves; all-valid controls;
+    Valid::check and batch_check called directly on the same values."""
+    scale = 1 if tier == 'quick' else 10
+    for i in sorted(ZOO):
+        t = ZOO[i]
+        if not has_vleaf(t):
+            continue
+        d = desc(t)
+        for rep in range((2 if i in LIGHT else 1) * scale):
+            cands = [rand_val(rng, t, m) for m in ('rand', 'rand', 'rand', 'max')]
+            x = max(cands, key=lambda y: (min(len(leaf_depths(t, y)), 12), rng.random()))
+            depths = leaf_depths(t, x)
+            n = len(depths)
+            # ---- controls: every leaf valid
+            for c in (1, 0):
+                bs, _ = enc(t, x, c)
+                for v2 in (1, 0):
+                    yield 'de', [[i], d, bs, [c, v2]], 'de/leaves_all_valid'
+            yield 'check', [[i], d, flat(t, x)], 'check/all_valid'
+            if n == 0:
+                continue
+            targets = [('first', 0), ('middle', n // 2), ('last', n - 1),
+                       ('deepest', max(range(n), key=lambda j: (depths[j], j)))]
+            for name, tg in targets:
+                y = invalidate(rng, t, x, tg)
+                for c in (1, 0):
+                    bs, _ = enc(t, y, c)
+                    for v2 in (1, 0):
+                        yield 'de', [[i], d, bs, [c, v2]], 'de/invalid_leaf_' + name
+                    if rng.randrange(4) == 0:
+                        yield 'de', [[i], d, bs + [rng.randrange(256)], [c, 1]], 'de/invalid_leaf+trailing'
+                if not has_dups(t, y):
+                    fy = flat(t, canon(t, y))
+                    yield 'check', [[i], d, fy], 'check/invalid_leaf_' + name
+                    yield 'rt', [[i], d, fy], 'rt/invalid_leaf_' + name
+            # ---- batch_check on a batch of values: all valid, then exactly one invalid leaf in one member
+            for nb in ([0, 1, 3] if rep == 0 else [rng.choice([2, 4, 6])]):
+                batch = [rand_val(rng, t, 'rand') for _ in range(nb)]
+                yield 'batch_check', [[i], d, [nb] + [z for y in batch for z in flat(t, y)]], 'batch_check/all_valid'
+                withl = [j for j, y in enumerate(batch) if leaf_depths(t, y)]
+                if withl:
+                    j = rng.choice(withl)
+                    yj = invalidate(rng, t, batch[j], rng.randrange(len(leaf_depths(t, batch[j]))))
+                    if not has_dups(t, yj):
+                        b2 = batch[:j] + [canon(t, yj)] + batch[j + 1:]
+                        yield 'batch_check', [[i], d, [nb] + [z for y in b2 for z in flat(t, y)]], 'batch_check/one_invalid'
+
+
+def gen_tags(rng, tier):
+    """bool bytes and option tags 2..255 wherever they occur - in particular inside sequences (whose elements are read
+    with Validate::No) and derived structs - under both Validate modes: always InvalidData."""
+    quick = tier == 'quick'
+    for i in sorted(ZOO):
+        t = ZOO[i]
+        if has_zst_seq(t):
+            continue
+        d = desc(t)
+        for rep in range(1 if quick else 6):
+            x = rand_val(rng, t, 'max' if rep == 0 else 'rand')
+            for c in ((1, 0) if (i in LIGHT or not quick) else (rng.randrange(2),)):
+                bs, marks = enc(t, x, c)
+                ms = [m for m in marks if m[1] in ('bool', 'tag')]
+                if not ms:
+                    continue
+                pick = {0, len(ms) - 1, rng.randrange(len(ms))} if quick else set(range(len(ms))[:12])
+                for j in sorted(pick):
+                    off, kind, val = ms[j]
+                    nbs = [2, 0xff, rng.randrange(3, 0xff)] if quick else [2, 3, 4, 0x7f, 0x80, 0xfe, 0xff] + \
+                        [rng.randrange(2, 256) for _ in range(3)]
+                    for nb in nbs:
+                        b2 = list(bs); b2[off] = nb
+                        for v2 in (1, 0):
+                            yield 'de', [[i], d, b2, [c, v2]], 'de/%s_2_255' % kind
 
 
 def xcheck_ok(case):
@@ -489,18 +688,24 @@ def nontrivial(case, out):
 
 RULE = ('type zoo of %d concrete Rust types (integers, bool, unit/PhantomData, Option, tuples 1..5, arrays, BigInt<2>, '
         'Vec/VecDeque/LinkedList incl. 3-deep nestings, String, BTreeMap/BTreeSet, BigUint, Arc/Cow, the four '
-        'mode-pinning wrappers, derived named/tuple/nested/generic structs, and two harness leaf types that make '
-        'Compress and Validate observable) x value classes (min, max, random, large) x ops (serialize + '
-        'serialized_size in both modes, roundtrip in 4 mode pairs, &T/&mut T/Rc<T>/[T]/&[T] serialization, '
-        'deserialize); decode stream: valid, cross-mode, trailing bytes, every truncation, single-byte corruption of '
-        'bool bytes / option tags / each length-prefix byte, prefixes len+-1, len+2, 2^16, 2^32, 2^40, 2^63, 2^64-1, '
-        'unsorted and duplicate map/set entries, 32 invalid + 18 boundary-valid UTF-8 sequences, mutated and random '
-        'bytes; non-trivial = non-empty payload; distinct = distinct case lines' % len(ZOO))
+        'mode-pinning wrappers, derived named/tuple/nested/generic structs, four harness leaf types that make '
+        'Compress and Validate observable (Even, Modal, Even32, Lt200 - the last with a hand-written batch_check), '
+        'derived structs over the validity-bearing leaves and 40 containers of those structs nested 1-3 deep) x value '
+        'classes (min, max, random, large) x ops (serialize + serialized_size in both modes, roundtrip in 4 mode pairs, '
+        '&T/&mut T/Rc<T>/[T]/&[T] serialization, deserialize, Valid::check, Valid::batch_check over exact-size and '
+        'inexact-size iterators); decode stream: valid, cross-mode, trailing bytes, every truncation, single-byte '
+        'corruption of bool bytes / option tags / each length-prefix byte, prefixes len+-1, len+2, 2^16, 2^32, 2^40, '
+        '2^63, 2^64-1, unsorted and duplicate map/set entries, 32 invalid + 18 boundary-valid UTF-8 sequences, mutated '
+        'and random bytes; validation stream: encodings / values with exactly one invalid leaf (first, middle, last, '
+        'deepest) in all 4 (Compress, Validate) modes with all-valid controls; bool bytes / option tags 2..255 in '
+        'place, both Validate modes; non-trivial = non-empty payload; distinct = distinct case lines' % len(ZOO))
 XCHECK = {'quick': 300, 'thorough': 1500}
 TRUSTED = ['String::from_utf8 (std) and BigUint::{to_bytes_le, from_bytes_le} (num-bigint) are called, not modelled line by '
            'line: the model uses an executable RFC 3629 validator and minimal little-endian bytes, tied by correspondence',
            'BTreeMap/BTreeSet FromIterator (std): modelled as sorted insertion where a later equal key replaces an earlier one',
-           'type-id -> Rust type table in harness/src/bin/c18.rs vs id -> descriptor table in props/C18/prop.py']
+           'type-id -> Rust type table in harness/src/bin/c18.rs vs id -> descriptor table in props/C18/prop.py',
+           'the validity-bearing leaf types Even, Even32, Lt200 are written in the harness (hand-written Valid impls, the '
+           'way curve points are written); every container / derive-generated Valid impl above them is /repo code']
 ASSUMPTIONS = ['64-bit target: u64 -> usize conversion of a length prefix cannot fail (NotEnoughSpace unreachable)',
                'reader is an in-memory slice (&[u8]); IoError sub-kinds are not compared',
                'sequence containers of zero-sized element encodings (Vec<()>, Vec<PhantomData<_>>, Vec<[T;0]>) are only '
